@@ -14,6 +14,34 @@ import (
 type arg struct {
 	In   mc.Bin `json:"in"`
 	Rule int    `json:"rule"`
+	Prev *prev  `json:"previous_call,omitempty"` // history of depth 2: this call is made first, on the buffer that is then reused for In
+}
+
+type prev struct {
+	In   mc.Bin `json:"in"`
+	Rule int    `json:"rule"`
+	Via  int    `json:"via"` // 0: DefaultParser[[]byte] on the shared buffer, 1: DefaultParser[string], 2: Valid on the shared buffer, 3: UnmarshalText on the shared buffer
+}
+
+// buffer for the []byte paths: fresh, or (history) the buffer of the previous call overwritten in place
+func bufferFor(a arg) []byte {
+	if a.Prev == nil {
+		return append([]byte(nil), a.In...)
+	}
+	buf := make([]byte, 0, 512)
+	buf = append(buf, a.Prev.In...)
+	switch a.Prev.Via { // exactly one previous call, so that no other call disturbs whatever state it may leave behind
+	case 0:
+		_, _ = roman.DefaultParser(buf, roman.Rule(a.Prev.Rule))
+	case 1:
+		_, _ = roman.DefaultParser(string(a.Prev.In), roman.Rule(a.Prev.Rule))
+	case 2:
+		_ = roman.Valid(buf, roman.Rule(a.Prev.Rule))
+	default:
+		var n roman.Number
+		_ = n.UnmarshalText(buf)
+	}
+	return append(buf[:0], a.In...)
 }
 
 func reset() {
@@ -23,10 +51,14 @@ func reset() {
 	roman.Parser = roman.DefaultParser[[]byte]
 }
 
-func typed(err error) bool {
+// typedFor: the error is typed by the kind of input that was passed
+func typedFor(err error, bytesInput bool) bool {
+	if bytesInput {
+		var b *roman.NumberFormatError[[]byte]
+		return errors.As(err, &b)
+	}
 	var a *roman.NumberFormatError[string]
-	var b *roman.NumberFormatError[[]byte]
-	return errors.As(err, &a) || errors.As(err, &b)
+	return errors.As(err, &a)
 }
 
 // expect: accept?, value
@@ -54,6 +86,7 @@ func probe(a arg) (string, string) {
 		return "oracle_ambiguous", fmt.Sprintf("reference grammar is ambiguous on %q (harness defect)", in)
 	}
 	rule := roman.Rule(a.Rule)
+	cp := bufferFor(a)
 	judge := func(path string, got roman.Number, err error) (string, string) {
 		if acc {
 			if err != nil {
@@ -70,16 +103,21 @@ func probe(a arg) (string, string) {
 		if got != 0 {
 			return "nonzero_result_with_error", fmt.Sprintf("%s(%q) = %d with error %v", path, in, uint64(got), err)
 		}
-		if !typed(err) {
-			return "untyped_error", fmt.Sprintf("%s(%q): %T %v", path, in, err, err)
+		if !typedFor(err, path != "DefaultParser[string]") {
+			return "untyped_error", fmt.Sprintf("%s(%q): %T %v is not a *roman.NumberFormatError of the input's type", path, in, err, err)
 		}
 		return "", ""
+	}
+	if a.Prev != nil { // history: the reused buffer is parsed first, directly after the previous call
+		g, err := roman.DefaultParser(cp, rule)
+		if k, d := judge("DefaultParser[[]byte]", g, err); k != "" {
+			return "after_previous_call:" + k, fmt.Sprintf("after DefaultParser(%q, rule=%d) on the same buffer: %s", a.Prev.In, a.Prev.Rule, d)
+		}
 	}
 	g, err := roman.DefaultParser(string(in), rule)
 	if k, d := judge("DefaultParser[string]", g, err); k != "" {
 		return k, d
 	}
-	cp := append([]byte(nil), in...)
 	g, err = roman.DefaultParser(cp, rule)
 	if k, d := judge("DefaultParser[[]byte]", g, err); k != "" {
 		return k, d
@@ -88,7 +126,7 @@ func probe(a arg) (string, string) {
 		if (verr == nil) != acc {
 			return "valid_disagrees", fmt.Sprintf("Valid[%d](%q, rule=%d) = %v but the numeral is accepted=%v", i, in, a.Rule, verr, acc)
 		}
-		if verr != nil && !typed(verr) {
+		if verr != nil && !typedFor(verr, i == 1) {
 			return "untyped_error", fmt.Sprintf("Valid(%q): %T %v", in, verr, verr)
 		}
 	}
@@ -149,6 +187,23 @@ func main() {
 			r.Strings([]byte("ivxlcdm"), mixL+1, monoL, one)
 		})
 		r.Sample("string", arg{In: "dclxvi", Rule: 0})
+		r.Phase("serial: all histories of two calls over 30 texts x 2 rules x 4 kinds of first call (the second call is judged; the caller reuses one buffer)", "complete for depth 2 over the listed texts", func() {
+			texts := []string{"", "I", "IV", "XII", "XIV", "XIQ", "xii", "cd", "cm", "CD", "CM", "MCMXCIV", "MCMXCVI", "mcmxciv", "IIII", "IIIII", "VX", "MMXXIV", "MMXXIX", "Q", "D", "d", "DC", "dc", "XL", "XC", "xl", "LX", "M", "MIM"}
+			r.Serial(func(w *mc.W) {
+				for _, x := range texts {
+					for rx := 0; rx < 2; rx++ {
+						for _, y := range texts {
+							for ry := 0; ry < 2; ry++ {
+								for via := 0; via < 4; via++ {
+									w.Point()
+									p.Do(w, arg{In: mc.Bin(y), Rule: ry, Prev: &prev{mc.Bin(x), rx, via}})
+								}
+							}
+						}
+					}
+				}
+			})
+		})
 		// every number 0..4999 in 4 renderings, alternating case in both phases
 		r.Phase("canonical numerals of 0..4999 in short and long form, in upper, lower and the two alternating-case renderings", "complete for this set", func() {
 			r.Parallel(5000, 16, func(w *mc.W, i int64) {
@@ -180,10 +235,18 @@ func main() {
 			})
 		})
 		r.Sample("mutant", arg{In: "MCMXCſ", Rule: 0})
-		r.Phase("length limit: M-runs of length 120..140 followed by each of 8 tails", "complete grid", func() {
-			r.Parallel(21, 1, func(w *mc.W, i int64) {
-				for _, tail := range []string{"", "I", "CM", "cmxcix", "DCCCLXXXVIII", "IIIII", "Z", "iv"} {
-					one(w, []byte(strings.Repeat("M", 120+int(i))+tail))
+		r.Phase("M-runs of every length 0..140 (upper, lower, alternating case) followed by each of 14 tails: thousands counting and the length limit", "complete grid", func() {
+			r.Parallel(141, 1, func(w *mc.W, i int64) {
+				for _, tail := range []string{"", "I", "CM", "cmxcix", "DCCCLXXXVIII", "IIIII", "Z", "iv", "CD", "XL", "dccccLXXXXviiii", "MI", "IM", "D"} {
+					for c := 0; c < 3; c++ {
+						run := []byte(strings.Repeat("M", int(i)))
+						for k := range run {
+							if c == 1 || c == 2 && k%2 == 0 {
+								run[k] = 'm'
+							}
+						}
+						one(w, append(run, tail...))
+					}
 				}
 			})
 		})
